@@ -4,6 +4,7 @@ import (
 	"encoding/json"
 	"fmt"
 	"math"
+	"strings"
 	"time"
 
 	"github.com/gebn/bmc/pkg/dcmi"
@@ -245,6 +246,17 @@ func c20One(c c20Case) string {
 		if i.IsSystemRelative() != wantSys || i.IsDeviceRelative() != wantDev {
 			return fmt.Sprintf("entity instance %#02x: system-relative=%v device-relative=%v, want %v/%v", c.A, i.IsSystemRelative(), i.IsDeviceRelative(), wantSys, wantDev)
 		}
+		// the rendering of the split: the number within its range and the range's name
+		if c.A <= 0x7f {
+			str := i.String()
+			num, word := fmt.Sprint(c.A), "ystem"
+			if wantDev {
+				num, word = fmt.Sprint(c.A-0x60), "evice"
+			}
+			if !strings.HasPrefix(str, num) || !strings.Contains(str, word) {
+				return fmt.Sprintf("entity instance %#02x renders as %q, want number %s of the %s-relative range", c.A, str, num, map[bool]string{true: "device", false: "system"}[wantDev])
+			}
+		}
 		// the split as it arrives from the wire: bit 7 is the container flag
 		d := fsrBase()
 		d[4] = byte(c.A)
@@ -404,6 +416,19 @@ func c20String(enc ipmi.StringEncoding, c, pos int, code, fill byte) string {
 	}
 	if got != string(want) || consumed != consumedWant {
 		return fmt.Sprintf("encoding %d: decode(% x, %d) = (%q, %d), want (%q, %d)", enc, data, c, got, consumed, string(want), consumedWant)
+	}
+	// the same string as the ID string of a Full Sensor Record (the route by
+	// which the library itself decodes ID strings)
+	if c == 1 && (enc == ipmi.StringEncoding8BitAsciiLatin1 || enc == ipmi.StringEncodingUnicode) {
+		return "" // a length of 1 is reserved for the byte-per-character types (43.15)
+	}
+	var fsr ipmi.FullSensorRecord
+	body := fsrBody(byte(enc)<<6|byte(c), data[:consumedWant])
+	if err := fsr.DecodeFromBytes(body, gopacket.NilDecodeFeedback); err != nil {
+		return fmt.Sprintf("encoding %d: a Full Sensor Record with the %d-character ID string % x: %v", enc, c, data[:consumedWant], err)
+	}
+	if fsr.Identity != string(want) {
+		return fmt.Sprintf("encoding %d: a Full Sensor Record with the %d-character ID string % x has Identity %q, want %q", enc, c, data[:consumedWant], fsr.Identity, string(want))
 	}
 	return ""
 }
